@@ -75,6 +75,8 @@ func (t *fnType) coq() string {
 			s += " " + parenT(p.coq())
 		}
 		return s
+	case "seq":
+		return "option " + parenT("list "+parenT(t.elem.coq())) // an iter.Seq[T] that is only ranged over: the values it yields; None = nil
 	case "eptr":
 		return "option Z" // a pointer to an element of a slice parameter: its index
 	case "rslice":
@@ -479,6 +481,8 @@ type fnCtx struct {
 	logFields    map[string]bool                   // receiver fields that are callbacks called for effect only (their calls are the log)
 	handed       map[*fnVar]string                 // slice parameters handed to the constructor of the local object: the field that holds their array
 	retPos       token.Pos                         // where the return being translated stands
+	seqLoops     map[*ast.RangeStmt]*ast.RangeStmt // range over an iter.Seq parameter -> the range over the list of its values
+	seqLists     map[*ast.RangeStmt]*fnVar
 	sx           *fnCtxX                           // fn_stdobj.go: local constants, object variables, pooled objects
 }
 
@@ -600,6 +604,9 @@ func (c *fnCtx) goType(e ast.Expr) *fnType {
 			return t
 		}
 	case *ast.IndexExpr, *ast.IndexListExpr:
+		if t := c.seqTypeOf(e); t != nil {
+			return t
+		}
 		if t := c.structTypeOf(v); t != nil {
 			return t
 		}
